@@ -2997,3 +2997,152 @@ func c02ExitReturnsCell(par *ssa.Function, jumpVar *ssa.Alloc, k int64, cell *ss
 	}
 	return found && ok
 }
+
+// ---------- who may close a tracker channel ----------
+
+var c02TrackerPkgs = []string{"", "internal/status", "internal/syncutil", "internal/graph"}
+
+// c02ClosesParam: g closes the channel it receives as parameter k (directly,
+// deferred, or by handing it to a function that does).
+func c02ClosesParam(g *ssa.Function, k int, depth int) bool {
+	if depth > 2 || k >= len(g.Params) || len(g.Blocks) == 0 {
+		return false
+	}
+	P := Aliases(g.Params[k])
+	for _, call := range Calls(g, func(string) bool { return true }) {
+		args := call.Common().Args
+		if CalleeName(call) == "builtin:close" {
+			if c02RootedIn(args[0], P) {
+				return true
+			}
+			continue
+		}
+		if h, off := c02CalleeOf(call); h != nil && h != g {
+			for i, a := range args {
+				if c02RootedIn(a, P) && c02ArgParam(h, off, i) != nil && c02ClosesParam(h, i+off, depth+1) {
+					return true
+				}
+			}
+		}
+	}
+	return false
+}
+
+// c02CallSitesIn: static (or resolvable) calls of g in the tracker packages.
+func c02CallSitesIn(p *Prog, g *ssa.Function) []ssa.CallInstruction {
+	var out []ssa.CallInstruction
+	for _, pkg := range c02TrackerPkgs {
+		for _, f := range p.FuncsOfPkg(pkg) {
+			for _, call := range Calls(f, func(string) bool { return true }) {
+				if call.Common().IsInvoke() {
+					continue
+				}
+				if h, _ := c02CalleeOf(call); h == g {
+					out = append(out, call)
+				}
+			}
+		}
+	}
+	return out
+}
+
+// c02CloseSites: the instructions of f that close a tracker channel:
+// close(x) with x flowing from the tracker, and calls handing such an x to an
+// in-module function that closes it.  A close(param) inside such a closing
+// helper is judged at the helper's call sites, not in the helper.
+func c02CloseSites(p *Prog, f *ssa.Function) []ssa.CallInstruction {
+	var out []ssa.CallInstruction
+	for _, call := range Calls(f, func(string) bool { return true }) {
+		args := call.Common().Args
+		if CalleeName(call) == "builtin:close" {
+			if !c02FromTracker(args[0], 0) {
+				continue
+			}
+			// parameter of f, and f's call sites are visible: judged there
+			viaParam := false
+			for _, r := range Roots(args[0]) {
+				if prm, ok := r.(*ssa.Parameter); ok && prm.Parent() == f && len(c02CallSitesIn(p, f)) > 0 {
+					viaParam = true
+				}
+			}
+			if !viaParam {
+				out = append(out, call)
+			}
+			continue
+		}
+		h, off := c02CalleeOf(call)
+		if h == nil || h == f {
+			continue
+		}
+		for i, a := range args {
+			if _, isChan := a.Type().Underlying().(*types.Chan); !isChan {
+				continue
+			}
+			if c02ArgParam(h, off, i) != nil && c02ClosesParam(h, i+off, 0) && c02FromTracker(a, 0) {
+				out = append(out, call)
+				break
+			}
+		}
+	}
+	return out
+}
+
+// c02TrackerStores: what the tracker stores as a node's completion signal is
+// an open channel: the value handed to sync.Map.Store / LoadOrStore / Swap /
+// CompareAndSwap in package internal/status is never a channel that is closed
+// outside the success path (a closed-channel sentinel would release every
+// waiter at once).
+func c02TrackerStores(c *Ctx) {
+	const R2 = "C02.R2.done-closed-only-on-success"
+	valueArg := map[string]int{
+		"(*sync.Map).Store": 2, "(*sync.Map).LoadOrStore": 2, "(*sync.Map).Swap": 2, "(*sync.Map).CompareAndSwap": 3,
+	}
+	for _, f := range c.P.FuncsOfPkg("internal/status") {
+		for _, call := range Calls(f, func(n string) bool { _, ok := valueArg[n]; return ok }) {
+			args := call.Common().Args
+			idx := valueArg[CalleeName(call)]
+			if idx >= len(args) {
+				continue
+			}
+			v := args[idx]
+			isChan := false
+			for _, r := range Roots(v) {
+				if _, ok := r.Type().Underlying().(*types.Chan); ok {
+					isChan = true
+				}
+			}
+			if !isChan {
+				continue
+			}
+			bad := ""
+			for _, r := range Roots(v) {
+				switch u := r.(type) {
+				case *ssa.MakeChan:
+					al := Aliases(u)
+					for _, cl := range CallsTo(f, "builtin:close") {
+						if c02RootedIn(cl.Common().Args[0], al) {
+							bad = "the channel stored for the node may already be closed (close at " + c.P.Pos(cl.Pos()) + ")"
+						}
+					}
+				case *ssa.UnOp:
+					if g, ok := u.X.(*ssa.Global); ok && u.Op == token.MUL {
+						for fn := range c.P.All {
+							if !inModule(fn) {
+								continue
+							}
+							for _, cl := range CallsTo(fn, "builtin:close") {
+								for _, rr := range Roots(cl.Common().Args[0]) {
+									if ld, ok := rr.(*ssa.UnOp); ok && ld.X == ssa.Value(g) {
+										bad = "a package-level channel that is closed in " + FnName(fn) + " is stored as the node's completion signal"
+									}
+								}
+							}
+						}
+					}
+				}
+			}
+			c.Check(R2, FnName(f)+"|stores-open-channel:"+CalleeName(call), call.Pos(), bad == "",
+				ifelse(bad == "", "the completion signal stored for a node is a fresh, open channel", bad+": every waiter is released although the node was not copied"))
+		}
+	}
+}
